@@ -56,6 +56,11 @@ def _apply_fn(f, ty=None):
         lid = _fresh_id[0]
         pat = {'k': 'Binding', 'local': lid, 'name': 'x', 'mut': False}
         arg = {'k': 'Path', 'res': 'local', 'local': lid, 'name': 'x'}
+        if f.get('has_self') and f.get('res') == 'AssocFn':
+            # a path that names a method, applied: `Trait::m(x)` is `x.m()`
+            return pat, {'k': 'MethodCall', 'method': f.get('def', '').split('::')[-1].split('<')[0],
+                         'callee': f.get('def'), 'ch': [arg], 'targs': f.get('targs'), 'ufcs': True,
+                         'sp': f.get('sp')}
         return pat, {'k': 'Call', 'callee': f.get('def'), 'callee_res': f.get('res'), 'ch': [f, arg],
                      'targs': f.get('targs')}
     return None
